@@ -980,8 +980,23 @@ def gen_redefine(rng):
                 props["modulation"] = {"kind": mkinds[b], "shape": list(sh), "re": value(mkinds[b], sh), "im": None}
         blk["system"] = props
         blocks.append(blk)
-    return {"kind": "system_redefine", "blocks": blocks, "pos": pos, "kgrid": 0.25,
-            "voxel_shape": rng.choice(["box", "point"]), "voxel_size": rng.choice([0.5, 0.8, 1.25])}
+    c = {"kind": "system_redefine", "blocks": blocks, "pos": pos, "kgrid": 0.25,
+         "voxel_shape": rng.choice(["box", "point"]), "voxel_size": rng.choice([0.5, 0.8, 1.25])}
+    # the probe object(s) of the System route: a fresh Imaging per block, ONE instance acquiring in every block, or one instance
+    # first used in a simulate() of the first block alone and then again in the simulate() of the whole sequence
+    c["probe_mode"] = rng.choice(["fresh", "shared", "shared", "reused", "reused"])
+    # positions through System(coords=...) as well (unbatched), re-defined in a later block
+    if B == 1 and rng.random() < 0.4:
+        c["coords_via_system"] = True
+        c["pos_later"] = [[q(rng, -1, 1, 8) for _ in range(d)] for _ in range(P)] if rng.random() < 0.6 else None
+        # coords (P, d) next to per-position arrays (P,) in one System collection is the known alignment finding: scalars here
+        for blk in blocks:
+            for v_ in blk["system"].values():
+                v_["shape"] = []
+                for key in ("values", "re", "im"):
+                    if v_.get(key) is not None:
+                        v_[key] = v_[key][:1]
+    return c
 
 
 def redefine_value(p, name):
@@ -1003,14 +1018,30 @@ def run_redefine(c):
     popts = {"voxel_shape": c["voxel_shape"], "voxel_size": c["voxel_size"], "reduce": False}
     seq_sys, seq_arg = [], []
     cur = {"weights": None, "modulation": None}
-    for blk in c["blocks"]:
+    mode = c.get("probe_mode", "fresh")
+    via_coords = bool(c.get("coords_via_system"))
+    mk_probe = lambda: Imaging(None if via_coords else pos, **popts)
+    shared = mk_probe()
+    cur_pos, first_len = pos, None
+    for b, blk in enumerate(c["blocks"]):
         props = {k_: redefine_value(v_, k_) for k_, v_ in blk["system"].items()}
         cur.update(props)
+        if via_coords and b == 0:
+            props["coords"] = pos
+        if via_coords and b == len(c["blocks"]) - 1 and c.get("pos_later") is not None:
+            cur_pos = np.array(c["pos_later"], dtype=float)
+            props["coords"] = cur_pos
         ops = build_ops(blk["ops"])
-        seq_sys += [epg.System(**props)] + ops + [Imaging(pos, **popts)]
+        seq_sys += [epg.System(**props)] + ops + [mk_probe() if mode == "fresh" else shared]
+        first_len = len(seq_sys) if first_len is None else first_len
         kw = {k_: v_ for k_, v_ in cur.items() if v_ is not None}
-        seq_arg += build_ops(blk["ops"]) + [Imaging(pos, **popts, **kw)]
+        seq_arg += build_ops(blk["ops"]) + [Imaging(cur_pos, **popts, **kw)]
     va = [np.asarray(v) for v in epg.simulate(seq_arg, kgrid=c["kgrid"], asarray=False)]
+    if mode == "reused":
+        # the same probe instance has already acquired once, in another simulate() (first block alone)
+        v0 = np.asarray(epg.simulate(seq_sys[:first_len], kgrid=c["kgrid"], asarray=False)[0])
+        if v0.shape != va[0].shape or np.abs(v0 - va[0]).max() > 1e-12 * (1 + np.abs(va[0]).max()):
+            return [v0], [va[0]]
     vs = [np.asarray(v) for v in epg.simulate(seq_sys, kgrid=c["kgrid"], asarray=False)]
     return vs, va
 
@@ -1027,8 +1058,9 @@ def redefine_verdict(c):
         if x.shape != y.shape:
             return "block %d: shape via System %s, via arguments %s" % (b, x.shape, y.shape)
         if np.abs(x - y).max() > 1e-12 * (1 + np.abs(y).max()):
-            return "block %d (System(%s)): via System %s, via arguments %s" % (
-                b, ", ".join("%s=%s %s" % (k_, v_["kind"], v_["shape"]) for k_, v_ in c["blocks"][b]["system"].items()), x.tolist(), y.tolist())
+            return "block %d, probe %s (System(%s)): via System %s, via fresh probes with explicit arguments %s" % (
+                b, {"fresh": "fresh per block", "shared": "instance shared by all blocks", "reused": "instance already used in an earlier simulate()"}[c.get("probe_mode", "fresh")],
+                ", ".join("%s=%s %s" % (k_, v_["kind"], v_["shape"]) for k_, v_ in c["blocks"][b]["system"].items()), x.tolist(), y.tolist())
     return None
 
 
